@@ -284,10 +284,10 @@ func NewBudget(d time.Duration) *Budget {
 	now := time.Now()
 	return &Budget{start: now, deadline: now.Add(d)}
 }
-func (b *Budget) Expired() bool        { return time.Now().After(b.deadline) }
-func (b *Budget) Deadline() time.Time  { return b.deadline }
-func (b *Budget) Elapsed() float64     { return time.Since(b.start).Seconds() }
-func (b *Budget) Left() time.Duration  { return time.Until(b.deadline) }
+func (b *Budget) Expired() bool       { return time.Now().After(b.deadline) }
+func (b *Budget) Deadline() time.Time { return b.deadline }
+func (b *Budget) Elapsed() float64    { return time.Since(b.start).Seconds() }
+func (b *Budget) Left() time.Duration { return time.Until(b.deadline) }
 
 // SortedKeys returns the keys of a count map in order.
 func SortedKeys(m map[string]int64) []string {
